@@ -1,4 +1,4 @@
-/- Kernel obligation: `bfChk` (Proofs/C11_NumDefs.lean) on the 16-bit patterns 0x6000..0x6fff. -/
+/- Kernel obligation: `bfChk` (Proofs/C11_NumDefs.lean) on the 16-bit patterns 0x1800..0x1bff. -/
 import BitstringModel.Proofs.C11_NumDefs
 namespace BM.C11
 theorem bfChunk_06 : bfChunkOk 6 = true := by decide +kernel
